@@ -738,6 +738,85 @@ def rule_shift(ctx):
     return res.finish(2)
 
 
+def rule_zerobranch(ctx):
+    """The unit deviance of a count / non-negative target has a removable singularity at y = 0 (y ln(y / mu) -> 0): the code
+    treats it in a branch of its own.  What that branch produces has to be what the general branch tends to at y = 0 - the
+    terms with a factor y vanish, the others stay.  A zero branch that returns something else (zero for the whole expression
+    where 2 mu remains) makes cost and gradient disagree for data with zeros."""
+    from .formula import Formula, V
+    from .calc import Unsupported, Rat, Poly
+    from .zeroskip import zero_test_kind
+    res = RuleResult("R-C12-zerobranch", "in the GLM distribution code a branch taken under `v == 0` yields the value of the general branch at v = 0 (terms with a factor v vanish)")
+    F = ctx.facts()
+    n = 0
+    for fn in F.all_fns():
+        d = fn["d"]
+        if d["krate"] != "linfa_linear" or "distribution" not in fn_file(fn) or fn.get("exp") or "tests" in d["path"]:
+            continue
+        c = fn["crate"]
+        key = fn_key(fn)
+        for clo in walk(fn["body"]):
+            if clo.get("k") != "Closure":
+                continue
+            params = [b for p_ in clo["params"] for b in pat_bindings(p_)]
+            for y in walk(clo["body"]):
+                if y.get("k") != "If" or y.get("else") is None or zero_test_kind(c, y["c"]) != "exact":
+                    continue
+                cnd = strip(y["c"])
+                neg = False
+                while cnd.get("k") == "Unary" and cnd["op"] == "!":
+                    cnd, neg = strip(cnd["e"]), not neg
+                if cnd.get("k") != "Binary":
+                    continue
+                if cnd["op"] == "!=":
+                    neg = not neg
+                v = next((peel_refs(x) for x in (cnd["l"], cnd["r"]) if peel_refs(x).get("k") == "Path" and peel_refs(x).get("local") in [b["local"] for b in params]), None)
+                if v is None:
+                    continue
+                zero_b, gen_b = (y["else"], y["then"]) if neg else (y["then"], y["else"])
+                n += 1
+                res.instance("%s : branch on `%s == 0`" % (key, v.get("name")))
+
+                def value_of(blk):
+                    """the value the branch yields: its tail expression, or the right-hand side of its single assignment"""
+                    b = strip(blk)
+                    while b.get("k") == "Block" and not b["stmts"] and b.get("e") is not None:
+                        b = strip(b["e"])
+                    if b.get("k") == "Block" and len(b["stmts"]) == 1 and b.get("e") is None:
+                        b = strip(b["stmts"][0])
+                    if b.get("k") == "Assign":
+                        return b["r"], Render(c).e(b["l"])
+                    return b, None
+                try:
+                    fm = Formula(F)
+                    env = {b["local"]: V("scal", fm.atom("v:" + b["name"])) for b in params}
+                    (ze, zt), (ge, gt) = value_of(zero_b), value_of(gen_b)
+                    if zt != gt:
+                        raise Unsupported("the branches do not produce the same thing")
+                    zv, gv = fm.expr(c, ze, env), fm.expr(c, ge, env)
+                    va = "v:" + v.get("name")
+
+                    def at_zero(poly):
+                        return Poly({m: cf for m, cf in poly.d.items() if not any(a == va for a, _ in m)})
+                    # a function atom of an argument that vanishes or blows up at v = 0 must come with a factor v
+                    for m, cf in gv.r.num.d.items():
+                        if not any(a == va for a, _ in m) and any(a in fm.args and va in (fm.args[a][1].num.atoms() | fm.args[a][1].den.atoms()) for a, _ in m):
+                            raise Unsupported("a term without the factor `%s` contains a function of it" % v.get("name"))
+                    if va in gv.r.den.atoms():
+                        raise Unsupported("the general branch divides by `%s`" % v.get("name"))
+                    lim = Rat(at_zero(gv.r.num), gv.r.den)
+                    zr = Rat(at_zero(zv.r.num), zv.r.den)
+                    if fm.same(lim, zr):
+                        res.ok()
+                    else:
+                        res.violate("%s : zero-branch-is-not-the-limit:%s" % (key, v.get("name")), "under `%s == 0` the closure yields %s, the general branch at %s = 0 is %s: the two agree only where that difference vanishes" % (v.get("name"), zr.key()[:80], v.get("name"), lim.key()[:120]), fn_loc(fn, y.get("ln")))
+                except (Unsupported, TypeError, KeyError, AttributeError) as e_:
+                    res.undecided("%s : zero-branch:%s" % (key, v.get("name")), "the branches under `%s == 0` are outside the vocabulary of the formula reader: %s (fail closed)" % (v.get("name"), e_), fn_loc(fn, y.get("ln")))
+    if n < 1:
+        res.missing_anchor("a closure in glm/distribution.rs that branches on an exact zero test of its parameter")
+    return res.finish(1)
+
+
 def rules(tier):
     from . import carry, c04
     from . import extrema
@@ -745,7 +824,7 @@ def rules(tier):
     from . import support, initlayout, shortcut, dispatchimpl
     from . import sizeroute
     return [sizeroute.make_rule("R-C12-sizeroute", lambda f: f["d"]["krate"] == "linfa_logistic" or (f["d"]["krate"] == "linfa_linear" and "glm" in fn_file(f)), "logistic regression and the GLM"),
-            rule_tolgrad, rule_shift, support.make_rule("R-C12-support", "TweedieDistribution::in_range admits no non-finite target (the predicate is evaluated at +inf, -inf and NaN)",
+            rule_tolgrad, rule_shift, rule_zerobranch, support.make_rule("R-C12-support", "TweedieDistribution::in_range admits no non-finite target (the predicate is evaluated at +inf, -inf and NaN)",
                               lambda f: f["d"]["krate"] == "linfa_linear" and f["d"]["name"] == "in_range" and (f["d"].get("self_adt") or "").endswith("TweedieDistribution"),
                               2, "TweedieDistribution::in_range"),
             initlayout.make_rule("R-C12-initlayout", "linfa_logistic", "setup_init_params", "ArgminParam", 3),
